@@ -1021,8 +1021,8 @@ class Steward():
         data['version'] = "HTTP/{0}.{1}".format(*self.requestant.version)
         data['method'] = self.requestant.method
 
-        pathSplits = urlsplit(unquote(self.requestant.url))
-        path = pathSplits.path
+        pathSplits = urlsplit(self.requestant.url)  # split as sent then unquote parts
+        path = unquote(pathSplits.path)
         data['path'] = path
 
         query = pathSplits.query
@@ -1030,7 +1030,7 @@ class Steward():
         qargs, query = httping.updateQargsQuery(qargs, query)
         data['qargs'] = qargs
 
-        fragment = pathSplits.fragment
+        fragment = unquote(pathSplits.fragment)
         data['fragment'] = fragment
 
         data['headers'] = list(self.requestant.headers.items())  # copy.copy(self.requestant.headers)  # make copy
